@@ -372,8 +372,9 @@ fn c09_bitcoin_genesis_accepted() {
     finish(suite, cases);
 }
 
-/// C11 (bounded: keys of length 1..=9, 16, 64, all-zero, the 6-block layouts of C03): an XOR-obfuscated directory
-/// delivers the same blocks as the plaintext one
+/// C11 (bounded: keys of length 1..=9, 16, 64, all-zero, near-periodic keys, keys made of printable characters; two layouts;
+/// one block with 40 000- and 33 000-byte fields): an XOR-obfuscated directory delivers the same blocks as the plaintext one --
+/// block hashes and every transaction id
 #[test]
 fn c11_xor_directories() {
     let suite = "c11_xor_directories";
@@ -413,7 +414,7 @@ fn c11_xor_directories() {
     finish(suite, cases);
 }
 
-/// C17 (bounded: the layouts below x 3 ranges x {plain, --verify, xor key}): after delivering height h in ascending order,
+/// C17 (bounded: the ten layouts below (incl. file numbers 2^8, 2^16, 2^32 apart) x 4 ranges x {plain, --verify, xor key}): after delivering height h in ascending order,
 /// every blk file still open (as seen in /proc/self/fd) holds a block of a height yet to come; a file needed again is
 /// transparently reopened and delivers the right block
 #[test]
